@@ -21,7 +21,26 @@ CONS = {
     "c_minus_x": lambda x1, x2, dx1, tk: (0.875 - x1, None, 1.125),
     "c_minus_prod": lambda x1, x2, dx1, tk: (2.0 - x1 * x2 - x1, -0.5, 2.6),
     "c_minus_der": lambda x1, x2, dx1, tk: (0.5 - dx1, None, 1.4),
+    # the other ways of writing a one-sided bound: e >= lb, strict e > lb, lb < e, e < ub (FORMS below)
+    "x1_ge": lambda x1, x2, dx1, tk: (x1, -0.55, None),
+    "x1_gt": lambda x1, x2, dx1, tk: (x1, -0.55, None),
+    "x1_lt_rev": lambda x1, x2, dx1, tk: (x1, -0.55, None),
+    "prod_gt": lambda x1, x2, dx1, tk: (x1 * x2, -0.5, None),
+    "sum_lt": lambda x1, x2, dx1, tk: (x1 + x2, None, 1.1),
+    "ub_ge": lambda x1, x2, dx1, tk: (x1, None, 0.9),
 }
+FORMS = {"x1_ge": "ge", "x1_gt": "gt", "x1_lt_rev": "lt_rev", "prod_gt": "gt", "sum_lt": "lt", "ub_ge": "ub_ge"}
+
+
+def impose(ocp, con, e, lb, ub):
+    form = FORMS.get(con)
+    if form == "ge": ocp.subject_to(e >= lb, grid="inf")
+    elif form == "gt": ocp.subject_to(e > lb, grid="inf")
+    elif form == "lt_rev": ocp.subject_to(lb < e, grid="inf")
+    elif form == "lt": ocp.subject_to(e < ub, grid="inf")
+    elif form == "ub_ge": ocp.subject_to(ub >= e, grid="inf")
+    elif lb is None: ocp.subject_to(e <= ub, grid="inf")
+    else: ocp.subject_to(lb <= (e <= ub), grid="inf")
 BAD = ["sin", "control", "time", "param", "expl_euler", "dc_deg3", "cvodes"]
 
 
@@ -50,10 +69,7 @@ def declare(case, with_inf=True):
             ocp.subject_to(x1 * p <= 0.9, grid="inf")
         else:
             e, lb, ub = CONS[case.get("con", "x1_le")](x1, x2, ocp.inf_der(x1), ocp.inf_inert(ocp.t))
-            if lb is None:
-                ocp.subject_to(e <= ub, grid="inf")
-            else:
-                ocp.subject_to(lb <= (e <= ub), grid="inf")
+            impose(ocp, case.get("con", "x1_le"), e, lb, ub)
     ocp.solver("ipopt", {"ipopt.print_level": 0, "print_time": False, "ipopt.sb": "yes"})
     g = {"uniform": lambda: UniformGrid(), "geom": lambda: GeometricGrid(3), "free": lambda: FreeGrid(min=0.05, max=2.0)}[case["grid"]]()
     meth = case["method"]
@@ -153,7 +169,7 @@ def true_slack(case, steps):
                 if abs(r.imag) < 1e-9 and 0 <= r.real <= 1:
                     cands.append(r.real)
         vals = np.array([e(c) for c in cands])
-        sl = ub - np.max(vals)
+        sl = (ub - np.max(vals)) if ub is not None else np.inf
         if lb is not None:
             sl = min(sl, np.min(vals) - lb)
         if sl < worst:
@@ -199,19 +215,25 @@ def run_sound(case):
         return min(out)
     N, M = case["N"], case["M"]
     # a certificate-feasible start: small states, positive interval lengths / horizon
-    base = nlpA.x0.copy()
-    if cert_slack(base) < 0:
-        base = np.zeros(n)
     # time coordinates (free grid / free T) must stay positive along the rays: keep them at their start values
     import casadi as ca
     nlpA.set_readbacks({"tc": ocpA.sample(sym["x1"], grid="control")[0], "T": ocpA.value(ocpA.T), "t0": ocpA.value(ocpA.t0)})
-    q0 = nlpA.read(base)
+    q0 = nlpA.read(nlpA.x0)
     tco = []
     for i in range(n):
-        w1 = base.copy(); w1[i] += 0.3
+        w1 = nlpA.x0.copy(); w1[i] += 0.3
         q1 = nlpA.read(w1)
         if any(not np.allclose(q1[k_], q0[k_], rtol=0, atol=1e-12) for k_ in q0):
             tco.append(i)
+    # a certificate-feasible start from a fixed candidate list (the certificate may only be satisfiable away from 0)
+    cands = [nlpA.x0.copy()]
+    for c_ in (0.0, -0.8, 0.8, -0.3, 0.3, -1.5, 1.5):
+        w_ = np.full(n, c_); w_[tco] = nlpA.x0[tco]
+        cands.append(w_)
+    base = cands[0]
+    for w_ in cands:
+        if cert_slack(w_) >= 0:
+            base = w_; break
     evals = 0
     nchecks = 0
     worst_gap = -np.inf
